@@ -167,9 +167,7 @@ fn step(s: &mut Session, sink: &mut Sink, op: &str, req: &str, x: usize, y: usiz
             // handle-for-handle cross-check inside the model, for the calls with an exact
             // theorem (for `replace` next to the replacing node xot keeps the replacing
             // text node, i.e. the survivor rule is not "the moved node never survives")
-            if op != "replace" {
-                sink.lines.insert(mark + 1, (format!("forest specx {}", req), "1".into()));
-            }
+            sink.lines.insert(mark + 1, (format!("forest specx {}", req), "1".into()));
             sink.stat("spec.checked");
             sink.stat(&format!("spec.checked.{}", op));
         }
